@@ -142,6 +142,7 @@ fn tree(rng: &mut Rng, depth: usize) -> Q {
 
 fn structure(rng: &mut Rng) -> PDB {
     let mut pdb = PDB::new();
+    let unordered = rng.chance(1, 3);
     for mi in 0..(1 + rng.below(2)) {
         let mut model = Model::new(mi + rng.below(2));
         let mut serial = 0;
@@ -155,7 +156,9 @@ fn structure(rng: &mut Rng) -> PDB {
                     let mut conf = Conformer::new(*rng.pick(&["ALA", "GLY", "HOH", "LIG"]), alt, None).expect("conformer");
                     for _ in 0..rng.below(4) {
                         let name = *rng.pick(&["CA", "N", "O", "CB", "X1", "ZN", "D9"]);
-                        let a = Atom::new(rng.chance(1, 4), serial, "", name, 0.0, 0.0, 0.0, grid(rng) / 2.0, grid(rng), "", 0).expect("atom");
+                        // serial numbers need not ascend in the order of the hierarchy (find promises nothing about sorted atoms)
+                        let given = if unordered { rng.below(40) } else { serial };
+                        let a = Atom::new(rng.chance(1, 4), given, "", name, 0.0, 0.0, 0.0, grid(rng) / 2.0, grid(rng), "", 0).expect("atom");
                         serial += 1;
                         conf.add_atom(a);
                     }
